@@ -666,6 +666,7 @@ func runC15(c *Ctx) {
 	}
 	ruleOnce(c, a, "ONCE")
 	ruleStatus(c, a)
+	ruleReplayKind(c, "STATUS")
 	ruleWiring(c, a)
 	rulePassthru(c, "PASSTHRU")
 	ruleLoopVar(c, "ONCE", "service")
@@ -675,6 +676,7 @@ func runC15(c *Ctx) {
 	ruleJoin(c, "HALFCLOSE")
 	ruleArityAll(c, "ARITY")
 	ruleDirWiring(c, "WIRING")
+	ruleServiceOptions(c, "WIRING", "service.WithMetrics", "its connections are served but never reported (no open/close/status, no byte counts, no probe report)")
 }
 
 func methodQ(name string) func(ssa.Instruction) bool {
@@ -1063,4 +1065,77 @@ func ruleWiring(c *Ctx, a *tcpAnchors) {
 			c.CheckAt("WIRING", short(oh)+":handler-works-on-the-measured-connection", call, measured, "the connection handler is given the raw connection, so its traffic is not counted")
 		}
 	}
+}
+
+// C15.STATUS, replay kinds: the two replay statuses name which test caught the connection. "ERR_REPLAY_SERVER" is chosen only
+// on paths on which IsServerSalt answered true, "ERR_REPLAY_CLIENT" only on paths on which it answered false (the salt was
+// not one of the server's own, so it was the replay cache that refused it).
+func ruleReplayKind(c *Ctx, rule string) {
+	p := c.P
+	isSaltTest := func(v ssa.Value) bool {
+		cl, ok := v.(*ssa.Call)
+		return ok && eng.MethodName(&cl.Call) == "IsServerSalt"
+	}
+	isV := func(v ssa.Value) bool {
+		o := eng.Deep
+		o.Stop = isSaltTest
+		os := p.Origins(v, o)
+		if len(os) == 0 {
+			return false
+		}
+		for _, o := range os {
+			if !isSaltTest(o) {
+				return false
+			}
+		}
+		return true
+	}
+	want := map[string]bool{"ERR_REPLAY_SERVER": true, "ERR_REPLAY_CLIENT": false}
+	seen := map[string]int{}
+	for _, f := range p.FnsIn("service") {
+		if p.IsTestSupport(f) || len(f.Blocks) == 0 {
+			continue
+		}
+		var te, fe eng.EdgeSet
+		for _, b := range f.Blocks {
+			for _, ins := range b.Instrs {
+				for i, op := range ins.Operands(nil) {
+					if *op == nil {
+						continue
+					}
+					s, ok := eng.ConstString(*op)
+					if !ok {
+						continue
+					}
+					onTrue, isStatus := want[s]
+					if !isStatus {
+						continue
+					}
+					if te == nil {
+						te, fe = eng.BoolEdges(f, isV)
+					}
+					need := fe
+					if onTrue {
+						need = te
+					}
+					behind := false
+					if ph, isPhi := ins.(*ssa.Phi); isPhi {
+						pred := b.Preds[i]
+						behind = need[eng.Edge{From: pred, To: b}] || eng.Cut(f, pred, need)
+						_ = ph
+					} else {
+						behind = eng.Cut(f, b, need)
+					}
+					seen[s]++
+					which := "false (the salt is not the server's own)"
+					if onTrue {
+						which = "true"
+					}
+					c.CheckAt(rule, fmt.Sprintf("replay-kind:%s:%s#%d", s, short(f), seen[s]), ins, len(need) > 0 && behind, "the status \""+s+"\" is chosen on a path on which IsServerSalt is not known to have answered "+which+": the reported replay kind does not name the test that refused the connection")
+				}
+			}
+		}
+	}
+	c.Floor(rule, "places where ERR_REPLAY_SERVER is chosen", seen["ERR_REPLAY_SERVER"], 1)
+	c.Floor(rule, "places where ERR_REPLAY_CLIENT is chosen", seen["ERR_REPLAY_CLIENT"], 1)
 }
